@@ -20,3 +20,12 @@ func (s *SessionManager) VerifControlCount() int { return s.clientRegistry.Count
 func (s *SessionManager) VerifHasTunnelConn(connID string) bool {
 	return s.tunnelRegistry.GetByConnID(connID) != nil
 }
+
+// VerifKickWithHook is KickOldControlConnection with a hook at the point where KickOldConnection
+// has released the registry lock and is about to send the kick command and close the stream.
+func (s *SessionManager) VerifKickWithHook(clientID int64, newConnID string, hook func()) {
+	s.clientRegistry.KickOldConnection(clientID, newConnID, func(c *ControlConnection, reason, code string) {
+		hook()
+		s.sendKickCommand(c, reason, code)
+	})
+}
